@@ -368,6 +368,16 @@ impl Ctx {
         match r {
             Ok(o) => Ok(Some(o)),
             Err(f) => {
+                if f.sig.starts_with("harness/") {
+                    // the harness could not run the case (resource exhaustion, environment):
+                    // inconclusive, never a violation
+                    let mut inc = self.inconclusive.lock().unwrap();
+                    if inc.len() < 5 {
+                        eprintln!("[{}] INCONCLUSIVE: {} ({})", self.property, f.msg, f.sig);
+                        inc.push(format!("{}: {}", f.sig, f.msg));
+                    }
+                    return Ok(None);
+                }
                 if self.known_match(&f.sig).is_some() {
                     *self.known_hits.lock().unwrap().entry(f.sig.clone()).or_default() += 1;
                     Ok(None)
